@@ -14,6 +14,7 @@ fuzz_target!(|data: &[u8]| {
     let out = c08::eval_any(&inp);
     if let Some(v) = out.violations.first() {
         eprintln!("VIOLATION {} {}\n  {}", v.prop, v.sig, v.detail);
+        eprintln!("REPLAY-JSON: {}", vharness::replay_json("c08-input", v.prop, &v.sig, &inp));
         std::process::abort();
     }
 });
